@@ -516,6 +516,7 @@ type zvsLane struct {
 	reply                     [][]byte
 	hits                      []*zvsHit
 	accepted, closed, running int
+	open                      map[*zvsConn]struct{}
 	bufl                      [zvsMaxPos + 1]*bufconn.Listener
 	srv                       []*grpc.Server
 }
@@ -538,30 +539,53 @@ func (l *zvsListener) Accept() (net.Conn, error) {
 	if err != nil {
 		return c, err
 	}
+	vc := &zvsConn{Conn: c, lane: l.lane}
 	l.lane.mu.Lock()
 	l.lane.accepted++
+	if l.lane.open == nil {
+		l.lane.open = map[*zvsConn]struct{}{}
+	}
+	l.lane.open[vc] = struct{}{}
 	l.lane.mu.Unlock()
-	return &zvsConn{Conn: c, lane: l.lane}, nil
+	return vc, nil
 }
 
 func (c *zvsConn) Close() error {
 	c.once.Do(func() {
 		c.lane.mu.Lock()
 		c.lane.closed++
+		delete(c.lane.open, c)
 		c.lane.mu.Unlock()
 	})
 	return c.Conn.Close()
 }
 
-// quiet waits until every accepted connection has been closed and no stub handler is running.
-func (l *zvsLane) quiet(max time.Duration) bool {
-	for t0 := time.Now(); time.Since(t0) < max; time.Sleep(2 * time.Millisecond) {
+// quiet waits until no handshake / stub handler is running and every accepted connection has been closed.  A signer
+// may keep its connections open after Sign (nothing in the properties forbids that): once nothing has moved for
+// `grace`, the lane closes what is still open on the server side, so that the next case starts from silence.
+func (l *zvsLane) quiet(max, grace time.Duration) bool {
+	t0 := time.Now()
+	lastA, lastC, stable := -1, -1, time.Now()
+	for time.Since(t0) < max {
 		l.mu.Lock()
-		q := l.accepted == l.closed && l.running == 0
+		run, a, c := l.running, l.accepted, l.closed
+		var left []*zvsConn
+		if run == 0 && a != c && a == lastA && c == lastC && time.Since(stable) >= grace {
+			for x := range l.open {
+				left = append(left, x)
+			}
+		}
 		l.mu.Unlock()
-		if q {
+		if run == 0 && a == c {
 			return true
 		}
+		if run != 0 || a != lastA || c != lastC {
+			lastA, lastC, stable = a, c, time.Now()
+		}
+		for _, x := range left {
+			x.Close()
+		}
+		time.Sleep(2 * time.Millisecond)
 	}
 	return false
 }
@@ -841,17 +865,38 @@ func (l *zvsLane) run(c *zvsCase, base *zvsBase, r *mrand.Rand, tryMs int) []int
 	case "directnil":
 		s = &Signer{endpoints: nil, dialOptions: base.get(10000)}
 	default:
+		if n == 0 {
+			// no constructor accepts this configuration on every tree: the only way to ask "what does Sign do without
+			// endpoints" directly is a struct literal (a panic on this path is reported as no verdict for the path)
+			c.Info.Via = "direct"
+			s = &Signer{endpoints: []string{}, dialOptions: base.get(10000)}
+			break
+		}
+		// the real constructor (so that whatever state a Signer carries is set up by the code itself); only the transport
+		// is redirected to the lane's in-memory servers by appending to the dial options
+		c.Info.Via = "dialer"
 		t := 10000
 		if hasDeadline {
 			t = tryMs
 		}
 		c.Info.TryMs = t
-		opts := append(append([]grpc.DialOption{}, base.get(t)...), grpc.WithTransportCredentials(insecure.NewCredentials()), grpc.WithContextDialer(l.dial))
-		eps := make([]string, n)
-		for m := range eps {
-			eps[m] = names[m] + ":4443"
+		var err error
+		func() {
+			defer func() {
+				if p := recover(); p != nil {
+					err = fmt.Errorf("panic: %v", p)
+				}
+			}()
+			s, err = NewSigner(SignerConfig{TLSClientKeyFile: l.pki.cliKey, TLSClientCertFile: l.pki.cliCert, TLSCACertFiles: []string{l.pki.caFile["ca1"]},
+				CrypkiEndpoints: names, CrypkiPort: 4443, Retries: 1, PerTryTimeout: time.Duration(t) * time.Millisecond})
+		}()
+		if err != nil || s == nil {
+			step(map[string]interface{}{"op": "construct", "err": true})
+			c.Info.Note = fmt.Sprint(err)
+			s = nil
+			break
 		}
-		s = &Signer{endpoints: eps, dialOptions: opts}
+		s.dialOptions = append(append([]grpc.DialOption{}, s.dialOptions...), grpc.WithTransportCredentials(insecure.NewCredentials()), grpc.WithContextDialer(l.dial))
 	}
 	res := zvsReset{Ev: "reset", Tid: c.Tid, Eps: c.Eps, Bundle: zvsBundle{Cas: zvsNorm(c.Bundle.Cas), Lay: c.Bundle.Lay}, Info: c.Info}
 	if s != nil {
@@ -870,8 +915,19 @@ func (l *zvsLane) run(c *zvsCase, base *zvsBase, r *mrand.Rand, tryMs int) []int
 			defer cancel()
 			certs, comments, err = s.Sign(ctx, req)
 		}()
+		// a signer that keeps connections offers a way to release them: use it (interface assertion, so that the harness
+		// compiles whether or not the method exists)
+		func() {
+			defer func() { recover() }()
+			switch x := interface{}(s).(type) {
+			case interface{ Close() error }:
+				x.Close()
+			case interface{ Close() }:
+				x.Close()
+			}
+		}()
 		// let the servers finish everything this call caused (handshakes, handlers, connection teardown)
-		if !l.quiet(10 * time.Second) {
+		if !l.quiet(10*time.Second, 150*time.Millisecond) {
 			c.Info.Note += " [servers not quiet]"
 		}
 		l.mu.Lock()
